@@ -71,9 +71,11 @@ def _version_of(vc, name):
     return vc.opt(name, vc.str)
 
 
-@harness('Q1', targets='kopf._core.reactor.queueing.worker', props=['C01', 'C07', 'C03', 'C14', 'C02'],
+@harness('Q1', targets='kopf._core.reactor.queueing.worker', props=['C01', 'C07', 'C03', 'C14', 'C02', 'C20', 'C05', 'C06', 'C08', 'C09', 'C10', 'C11', 'C12', 'C13', 'C15', 'C17', 'C19'],
+         prop_clauses={'C20': ['processor_failure_escalates', 'cancellation_propagates', 'frame_streams'], 'C05': ['got_item_processed_next', 'order_invariant', 'consistency_bookkeeping', 'no_retire_before_consistency_deadline', 'processor_gets_current_expectation'], 'C06': ['idle_exit_leaves_no_event', 'got_item_processed_next', 'order_invariant', 'frame_streams'], 'C08': ['idle_exit_leaves_no_event', 'got_item_processed_next', 'order_invariant'], 'C09': ['idle_exit_leaves_no_event', 'got_item_processed_next', 'order_invariant'], 'C10': ['idle_exit_leaves_no_event', 'got_item_processed_next', 'order_invariant', 'frame_streams'], 'C11': ['idle_exit_leaves_no_event', 'got_item_processed_next', 'order_invariant', 'frame_streams', 'consistency_bookkeeping', 'no_retire_before_consistency_deadline', 'processor_gets_current_expectation'], 'C12': ['got_item_processed_next'], 'C13': ['idle_exit_leaves_no_event', 'got_item_processed_next', 'order_invariant', 'frame_streams'], 'C15': ['got_item_processed_next'], 'C17': ['idle_exit_leaves_no_event', 'got_item_processed_next', 'order_invariant'], 'C19': ['idle_exit_leaves_no_event', 'got_item_processed_next', 'order_invariant', 'frame_streams']},
          clauses=['idle_exit_leaves_no_event', 'got_item_processed_next', 'order_invariant', 'frame_streams',
-                  'consistency_bookkeeping', 'no_retire_before_consistency_deadline', 'processor_gets_current_expectation'],
+                  'consistency_bookkeeping', 'no_retire_before_consistency_deadline', 'processor_gets_current_expectation',
+                  'processor_failure_escalates', 'cancellation_propagates'],
          canaries=['canary.never_idle_exit', 'canary.queue_empty_when_timeout_fires'],
          native_replays={'idle_exit_leaves_no_event': 'drivers/q1_idle_race.py', 'order_invariant': 'drivers/q1_idle_race.py',
                          'got_item_processed_next': 'drivers/q1_idle_race.py'},
@@ -82,7 +84,8 @@ def Q1(vc):
     return _q1(vc, 'order')
 
 
-@harness('Q1p', targets='kopf._core.reactor.queueing.worker', props=['C01', 'C03', 'C07', 'C13', 'C10'],
+@harness('Q1p', targets='kopf._core.reactor.queueing.worker', props=['C01', 'C03', 'C07', 'C13', 'C10', 'C05', 'C06', 'C08', 'C09', 'C11', 'C12', 'C14', 'C15', 'C17', 'C19', 'C02'],
+         prop_clauses={'C05': ['got_item_processed_next'], 'C06': ['pressure_tells_pending_events', 'got_item_processed_next', 'frame_streams'], 'C08': ['got_item_processed_next'], 'C09': ['pressure_tells_pending_events', 'got_item_processed_next'], 'C12': ['pressure_tells_pending_events', 'got_item_processed_next'], 'C14': ['pressure_tells_pending_events', 'got_item_processed_next'], 'C15': ['got_item_processed_next'], 'C17': ['got_item_processed_next'], 'C19': ['got_item_processed_next', 'frame_streams', 'hopeless_wait_not_repeated'], 'C02': ['pressure_tells_pending_events']},
          clauses=['pressure_tells_pending_events', 'hopeless_wait_not_repeated', 'frame_streams', 'got_item_processed_next'],
          canaries=['canary.never_idle_exit', 'canary.queue_empty_when_timeout_fires'],
          trusted=['as Q1; asyncio.wait_for(<fresh coroutine>, timeout <= 0) cancels the getter before its first step'])
@@ -110,6 +113,9 @@ def _q1(vc, mode):
     Q4  (C07) the consistency expectation is armed exactly after a processor call that returned a version
         (with a positive consistency_timeout), cleared only by an event carrying exactly that version, handed
         to every processor call, and the idle time-out is never shorter than the time left to the deadline.
+    Q5e (C20/C12) the worker ends with the processor's exception iff the processor raised (an unrecoverable processing error is
+        escalated, never swallowed: the watcher fails with it and the operator stops), and with CancelledError iff it was
+        cancelled while waiting -- on both ways out the stream is removed and the signaller notified (Q3).
     """
     eng = E()
     clock = Clock()
@@ -355,6 +361,11 @@ def _q1(vc, mode):
                  on_suspend=watcher_may_append)
     except (RuntimeError, asyncio.CancelledError) as e:
         outcome = 'raise ' + type(e).__name__
+    if mode == 'order':
+        # a failed processor is an unrecoverable error: the worker ends WITH that error (the watcher escalates a failed worker
+        # and the operator stops, C20/C12 "never swallowed"); a cancellation of the worker is not swallowed either
+        vc.ensure('processor_failure_escalates', (outcome == 'raise RuntimeError') == (G.exit_kind == 'exception'))
+        vc.ensure('cancellation_propagates', (outcome == 'raise CancelledError') == (G.exit_kind == 'cancelled'))
     # Q3: frame
     vc.ensure('frame_streams', streams.log == [('del', key)] and G.gets_after_del == 0)
     vc.ensure('frame_streams', signaller.entered == 1 and ('notify_all',) in vc.trace)
@@ -369,8 +380,8 @@ REGISTRY['Q1'].doc = (_q1.__doc__ or '').strip()
 
 # ================================================================================================ watcher
 @harness('Q5', targets=['kopf._core.reactor.queueing.watcher', 'kopf._core.reactor.queueing.get_uid'],
-         props=['C01', 'C20', 'C03', 'C13', 'C07', 'C10', 'C19', 'C02', 'C14', 'C11'],
-         prop_clauses={'C13': ['pressure_follows_put'], 'C07': ['pressure_follows_put'], 'C10': ['pressure_follows_put'], 'C19': ['one_put_per_event', 'put_into_live_stream', 'no_put_for_bookmarks', 'keyed_by_uid'], 'C02': ['pressure_follows_put'], 'C14': ['pressure_follows_put'], 'C11': ['pressure_follows_put']},
+         props=['C01', 'C20', 'C03', 'C13', 'C07', 'C10', 'C19', 'C02', 'C14', 'C11', 'C05', 'C06', 'C08', 'C09', 'C12', 'C17'],
+         prop_clauses={'C13': ['pressure_follows_put', 'one_put_per_event', 'put_into_live_stream', 'create_path_insert_put_spawn', 'spawn_only_when_absent', 'keyed_by_uid'], 'C07': ['pressure_follows_put', 'keyed_by_uid', 'spawn_only_when_absent'], 'C10': ['pressure_follows_put', 'one_put_per_event', 'put_into_live_stream', 'create_path_insert_put_spawn'], 'C19': ['one_put_per_event', 'put_into_live_stream', 'no_put_for_bookmarks', 'keyed_by_uid', 'create_path_insert_put_spawn'], 'C02': ['pressure_follows_put', 'one_put_per_event', 'create_path_insert_put_spawn', 'spawn_only_when_absent', 'keyed_by_uid'], 'C14': ['pressure_follows_put', 'one_put_per_event', 'put_into_live_stream', 'create_path_insert_put_spawn', 'spawn_only_when_absent', 'keyed_by_uid'], 'C11': ['pressure_follows_put'], 'C05': ['keyed_by_uid', 'spawn_only_when_absent', 'create_path_insert_put_spawn'], 'C06': ['one_put_per_event', 'put_into_live_stream', 'create_path_insert_put_spawn'], 'C08': ['one_put_per_event', 'put_into_live_stream', 'spawn_only_when_absent', 'keyed_by_uid'], 'C09': ['one_put_per_event', 'put_into_live_stream', 'create_path_insert_put_spawn', 'spawn_only_when_absent', 'keyed_by_uid', 'pressure_follows_put'], 'C12': ['keyed_by_uid'], 'C17': ['one_put_per_event', 'put_into_live_stream', 'create_path_insert_put_spawn', 'spawn_only_when_absent', 'keyed_by_uid']},
          clauses=['one_put_per_event', 'no_put_for_bookmarks', 'put_into_live_stream', 'create_path_insert_put_spawn',
                   'spawn_only_when_absent', 'keyed_by_uid', 'worker_failure_escalates', 'drains_and_closes_on_exit',
                   'pressure_follows_put'],
